@@ -109,6 +109,8 @@ def accounted : List (C13Gen.Site × Cls) := [
 ]
 
 /-- the lock acquisitions the model knows, in the extractor's order: (file, function, lock call, deferred release?) -/
+/- (the eight `cacheMutex` sections of the rule-cache helpers added by fix 35f4d57 release explicitly, not by `defer`:
+   their bodies are one map read, write or delete on a non-nil map and cannot panic) -/
 def lockTable : List C13Gen.LockUse := [
   ⟨"core/location.go", "Location.Control", "loc.RLock()", false⟩,
   ⟨"core/location.go", "Location.IsReadOnly", "loc.RLock()", false⟩,
@@ -124,22 +126,30 @@ def lockTable : List C13Gen.LockUse := [
   ⟨"core/state_indexed.go", "IndexedState.Load", "s.slock(false)", true⟩,
   ⟨"core/state_indexed.go", "IndexedState.Rem", "s.slock(false)", true⟩,
   ⟨"core/state_indexed.go", "IndexedState.Search", "s.slock(true)", false⟩,
+  ⟨"core/state_indexed.go", "IndexedState.cacheRule", "s.cacheMutex.Lock()", false⟩,
+  ⟨"core/state_indexed.go", "IndexedState.cachedRule", "s.cacheMutex.Lock()", false⟩,
   ⟨"core/state_indexed.go", "IndexedState.doFindRules", "s.slock(true)", true⟩,
   ⟨"core/state_indexed.go", "IndexedState.get", "s.slock(true)", false⟩,
   ⟨"core/state_indexed.go", "IndexedState.slock", "s.Lock()", false⟩,
   ⟨"core/state_indexed.go", "IndexedState.slock", "s.RLock()", false⟩,
+  ⟨"core/state_indexed.go", "IndexedState.uncacheRule", "s.cacheMutex.Lock()", false⟩,
+  ⟨"core/state_indexed.go", "IndexedState.uncacheRules", "s.cacheMutex.Lock()", false⟩,
   ⟨"core/state_linear.go", "LinearState.Add", "s.slock(false)", false⟩,
   ⟨"core/state_linear.go", "LinearState.Clear", "s.slock(false)", false⟩,
   ⟨"core/state_linear.go", "LinearState.Count", "s.slock(true)", false⟩,
   ⟨"core/state_linear.go", "LinearState.Delete", "s.slock(false)", false⟩,
   ⟨"core/state_linear.go", "LinearState.IsLoaded", "s.slock(false)", false⟩,
   ⟨"core/state_linear.go", "LinearState.Load", "s.slock(false)", true⟩,
+  ⟨"core/state_linear.go", "LinearState.cacheRule", "s.cacheMutex.Lock()", false⟩,
+  ⟨"core/state_linear.go", "LinearState.cachedRule", "s.cacheMutex.Lock()", false⟩,
   ⟨"core/state_linear.go", "LinearState.doFindRules", "s.slock(true)", true⟩,
   ⟨"core/state_linear.go", "LinearState.get", "s.slock(true)", false⟩,
   ⟨"core/state_linear.go", "LinearState.rem", "s.slock(false)", true⟩,
   ⟨"core/state_linear.go", "LinearState.search", "s.slock(true)", true⟩,
   ⟨"core/state_linear.go", "LinearState.slock", "s.Lock()", false⟩,
-  ⟨"core/state_linear.go", "LinearState.slock", "s.RLock()", false⟩
+  ⟨"core/state_linear.go", "LinearState.slock", "s.RLock()", false⟩,
+  ⟨"core/state_linear.go", "LinearState.uncacheRule", "s.cacheMutex.Lock()", false⟩,
+  ⟨"core/state_linear.go", "LinearState.uncacheRules", "s.cacheMutex.Lock()", false⟩
 ]
 
 /-! ## 2. The state lock -/
